@@ -10,6 +10,7 @@ import (
 	"regexp"
 	"sort"
 	"strings"
+	"verif/clih"
 
 	"ariga.io/atlas/sql/schema"
 
@@ -373,10 +374,10 @@ func minus(a, b []string) []string {
 
 func Run(r *report.Run) {
 	ctx := context.Background()
-	r.Rule = "(a) exclude: a SQLite database with colliding names (4 tables, a view, columns/indexes/foreign keys/checks) on a real engine x every pattern table[.child][selector] from 10 table globs x 8 child globs x 9 type selectors (quick: every single pattern; thorough: every unordered pair), through InspectSchema and InspectRealm, compared element by element with a reference of the pattern semantics built on path.Match; (b) skip: per dialect a change set containing every skippable kind at every nesting level x all 2^15 subsets of the policy kinds {Add,Drop,Modify} x {Schema,Table,Column,Index,ForeignKey}: the change tree must equal the unskipped diff with the skipped kinds filtered out recursively; non-trivial = pattern set excluding >=1 element, or a non-empty skip subset; distinct by construction"
+	r.Rule = "(a) exclude: a SQLite database with colliding names (4 tables, a view, columns/indexes/foreign keys/checks) on a real engine x every pattern table[.child][selector] from 10 table globs x 8 child globs x 9 type selectors (quick: every single pattern; thorough: every unordered pair), through InspectSchema and InspectRealm, compared element by element with a reference of the pattern semantics built on path.Match; (b) skip: per dialect a change set containing every skippable kind at every nesting level x all 2^15 subsets of the policy kinds {Add,Drop,Modify} x {Schema,Table,Column,Index,ForeignKey}: the change tree must equal the unskipped diff with the skipped kinds filtered out recursively; (c) end to end: real `atlas schema apply --auto-approve` on a SQLite file whose current and desired states disagree on 3 tables and 3 columns (one per way a plan can touch a resource) x every set of <=2 of 9 exclude patterns x {--exclude flags, env exclude} x {no dev database, dev database} x desired state {HCL file, database URL}, and all 15 non-empty subsets of diff.skip {add_table, drop_table, add_column, drop_column} in a project file: a resource is left exactly as it was iff a pattern matches it / its change kind is skipped, everything else reaches the desired state, rows survive, and a second apply is a no-op; non-trivial = pattern set excluding >=1 element, or a non-empty skip subset; distinct by construction"
 	r.Assumptions = []string{
 		"indexes/foreign keys built on an excluded column, and foreign keys pointing at an excluded table, are unspecified by the documentation: not judged",
-		"end-to-end `schema apply --exclude` / diff.skip in a project file are covered by the CLI-driven slice",
+		"the CLI slice uses one fixed pair of schemas in which every way a plan can touch a resource occurs once",
 	}
 	ps := patterns()
 	var cases []ExCase
@@ -420,6 +421,8 @@ func Run(r *report.Run) {
 		}
 	}
 	r.Set("skip_subsets_checked", n)
+	// (c) end to end through the CLI
+	r.Set("cli_cases", runCLI(r))
 }
 
 func Replay(r *report.Run, raw json.RawMessage) {
@@ -427,6 +430,7 @@ func Replay(r *report.Run, raw json.RawMessage) {
 		Case struct {
 			Exclude *ExCase
 			Skip    *SkipCase
+			CLI     *CLICase `json:"cli"`
 		}
 	}
 	if err := json.Unmarshal(raw, &v); err != nil {
@@ -436,6 +440,11 @@ func Replay(r *report.Run, raw json.RawMessage) {
 	r.Case("a", true)
 	r.Case("b", true)
 	switch {
+	case v.Case.CLI != nil:
+		defer clih.Cleanup()
+		if p := evalCLI(*v.Case.CLI); len(p) > 0 {
+			r.Violate(classifyCLI(*v.Case.CLI, p), strings.Join(p, " | "), v.Case)
+		}
 	case v.Case.Exclude != nil:
 		res := evalExclude(context.Background(), *v.Case.Exclude)
 		fmt.Printf("  exclude %q -> reference %v\n", v.Case.Exclude.Patterns, refExclude(v.Case.Exclude.Patterns))
